@@ -33,6 +33,7 @@ import (
 	"bytes"
 	"crypto/sha256"
 	"database/sql"
+	"encoding/binary"
 	"fmt"
 	"io"
 	"log"
@@ -386,14 +387,67 @@ func (g *commonGen) write() {
 	}
 }
 
-// segment performs the next write, saves the resulting WAL file to dst, then
-// checkpoints and returns the state of the database after the segment.
+// commonNormalizeWAL returns a copy of the WAL image w with its two salt values
+// replaced by the given ones and every checksum (header and cumulative frame
+// checksums) recomputed, following the SQLite WAL format. SQLite draws the
+// salts at random, which would make the generated files (hence CRCs, stream
+// headers and the set of enumerated byte values) differ from run to run; with
+// fixed salts every run enumerates exactly the same bytes. The builder proves
+// the normalised files are still accepted by SQLite (replay cross-check).
+func commonNormalizeWAL(w []byte, salt1, salt2 uint32) ([]byte, error) {
+	if len(w) < 32 {
+		return nil, fmt.Errorf("WAL image too short: %d", len(w))
+	}
+	out := append([]byte{}, w...)
+	var bo binary.ByteOrder
+	switch binary.BigEndian.Uint32(out[0:4]) {
+	case 0x377f0682:
+		bo = binary.LittleEndian
+	case 0x377f0683:
+		bo = binary.BigEndian
+	default:
+		return nil, fmt.Errorf("not a WAL image")
+	}
+	pageSize := int(binary.BigEndian.Uint32(out[8:12]))
+	if (len(out)-32)%(24+pageSize) != 0 {
+		return nil, fmt.Errorf("WAL image of %d bytes is not a whole number of %d-byte-page frames", len(out), pageSize)
+	}
+	sum := func(s0, s1 uint32, b []byte) (uint32, uint32) {
+		for i := 0; i+8 <= len(b); i += 8 {
+			s0 += bo.Uint32(b[i:]) + s1
+			s1 += bo.Uint32(b[i+4:]) + s0
+		}
+		return s0, s1
+	}
+	binary.BigEndian.PutUint32(out[16:], salt1)
+	binary.BigEndian.PutUint32(out[20:], salt2)
+	s0, s1 := sum(0, 0, out[0:24])
+	binary.BigEndian.PutUint32(out[24:], s0)
+	binary.BigEndian.PutUint32(out[28:], s1)
+	for off := 32; off < len(out); off += 24 + pageSize {
+		binary.BigEndian.PutUint32(out[off+8:], salt1)
+		binary.BigEndian.PutUint32(out[off+12:], salt2)
+		s0, s1 = sum(s0, s1, out[off:off+8])
+		s0, s1 = sum(s0, s1, out[off+24:off+24+pageSize])
+		binary.BigEndian.PutUint32(out[off+16:], s0)
+		binary.BigEndian.PutUint32(out[off+20:], s1)
+	}
+	return out, nil
+}
+
+// segment performs the next write, saves the resulting WAL file (with
+// normalised salts, see commonNormalizeWAL) to dst, then checkpoints and
+// returns the state of the database after the segment.
 func (g *commonGen) segment(dst string) *commonState {
 	g.t.Helper()
 	g.write()
 	w, err := os.ReadFile(g.path + "-wal")
 	if err != nil || len(w) == 0 {
 		g.t.Fatalf("common: reading generator WAL: %v (len %d)", err, len(w))
+	}
+	w, err = commonNormalizeWAL(w, 0x51000000+uint32(g.seg), 0x9e3779b9*uint32(g.seg+1))
+	if err != nil {
+		g.t.Fatalf("common: %v", err)
 	}
 	if err := os.WriteFile(dst, w, 0o644); err != nil {
 		g.t.Fatalf("common: %v", err)
